@@ -15,6 +15,7 @@ import (
 // answers and the misbehaviours of the fault alphabet.
 //
 //	healthy  200 with a small body
+//	upgrade  101 Switching Protocols, then echoes until the peer closes
 //	500      well-formed 500
 //	refuse   the listener is closed (connection refused); re-opened on the same port afterwards
 //	hang     accepts, reads the request, never answers (until the peer goes away)
@@ -187,6 +188,12 @@ func (fb *FaultBackend) serve(c net.Conn, mode string, stall time.Duration) {
 		case "500":
 			fmt.Fprintf(c, "HTTP/1.1 500 Internal Server Error\r\nContent-Type: text/plain\r\nContent-Length: 4\r\n\r\nfail")
 			continue
+		case "upgrade":
+			// accept the protocol switch, echo what arrives until the peer closes
+			fmt.Fprintf(c, "HTTP/1.1 101 Switching Protocols\r\nConnection: Upgrade\r\nUpgrade: websocket\r\n\r\n")
+			c.SetDeadline(time.Now().Add(20 * time.Second))
+			io.Copy(c, c)
+			return
 		case "hang":
 			buf := make([]byte, 1)
 			c.SetReadDeadline(time.Now().Add(30 * time.Second))
